@@ -410,18 +410,19 @@ def F_names(e, acc=None):
 def param_tags(prog):
     """Classification of a parametrised call tree for the violation key (not an oracle): which parametrised
     variables reach which call sites as plain actual arguments.  dup = one of them is passed twice in a call,
-    mixed = call sites of one callee pass them at different positions; rbv = replace_by_value."""
+    mixed = call sites of one callee pass them at different positions or pass different values at one position
+    (e.g. `n` here, `mode` there, both parametrised); rbv = replace_by_value."""
     p = prog['param']
     units = {u['name']: u for u in prog['units']}
     if p['entry'] == 'consts':
         kinds = {s['s'] for u in prog['units'] for s in walk_stmts(u['body'])}
         return 'consts' + ('+assoc' if 'assoc' in kinds else '')
-    par = {('lev1' if p['entry'] == 'lev1' else 'kernel'): set(p['dic2p'])}
+    par = {('lev1' if p['entry'] == 'lev1' else 'kernel'): dict(p['dic2p'])}     # unit -> {parametrised name: value}
     tags, sitepos = set(), {}
     for uname in ('kernel', 'lev1', 'lev2'):
         if uname not in units:
             continue
-        pu = par.get(uname, set())
+        pu = par.get(uname, {})
         for s in walk_stmts(units[uname]['body']):
             if s['s'] != 'call' or s['name'] not in units:
                 continue
@@ -429,8 +430,10 @@ def param_tags(prog):
             names = [s['args'][i]['name'] for i in pos]
             if len(set(names)) < len(names):
                 tags.add('dup')
-            sitepos.setdefault(s['name'], set()).add(pos)
-            par.setdefault(s['name'], set()).update(units[s['name']]['args'][i] for i in pos)
+            # a site = the positions that receive a parametrised variable AND the values they receive
+            sitepos.setdefault(s['name'], set()).add(tuple((i, pu[s['args'][i]['name']]) for i in pos))
+            for i in pos:
+                par.setdefault(s['name'], {}).setdefault(units[s['name']]['args'][i], pu[s['args'][i]['name']])
     if any(len(v) > 1 for v in sitepos.values()):
         tags.add('mixed')
     if p['rbv']:
@@ -649,7 +652,7 @@ def signature(kind, msg):
     return re.sub(r'; did you mean.*', '', sig)
 
 
-def report_grouped(ctx, label, cases, results, fails, check, tagger, rounds=4, max_groups=8):
+def report_grouped(ctx, label, cases, results, fails, check, tagger, rounds=3, max_groups=5):
     """Violations keyed `<label>:<tags of the program>:<failure class>`; one representative per key is shrunk by
     statement deletion (re-running `check` on the candidates) as long as class and tags stay the same."""
     groups = {}
